@@ -313,6 +313,61 @@ def run(ctx):
                 res.oracle_failures.append(("len(feature) != end - start + 1", {"feature": str(ft)}))
         if len(res.samples) < 2:
             res.sample({"lines": lines[:6]})
+    # history on ONE FeatureDB object: the transcript is looked up (db[id], bed12), then stretched over a newly attached
+    # exon by add_relation(..., parent_func=...) (which stores what the function returns), then bed12 again: the line
+    # must be that of the transcript and blocks as they are stored now
+    rh = ctx.rng("c18", "history: add_relation rewrites the transcript")
+    for hi in range(12 if not ctx.thorough else 120):
+        strand = rh.choice("+-")
+        pos = rh.randrange(1, 300)
+        exons = []
+        for e in range(rh.randrange(2, 6)):
+            ln = rh.randrange(5, 90)
+            exons.append((pos, pos + ln - 1))
+            pos += ln + rh.randrange(1, 150)
+        tid = "h%d" % hi
+        early = {"id": tid, "start": exons[0][0], "end": exons[-2][1], "strand": strand, "exons": exons[:-1], "cds": [],
+                 "utr": [], "name": "N" + tid, "score": ".", "tn": dict(TN_PLAIN)}
+        late = dict(early, end=exons[-1][1], exons=exons)
+        hl = [gen_db.gff_line("chr1", "mRNA", early["start"], early["end"], strand, [("ID", [tid]), ("Name", ["N" + tid])])]
+        for i, (a, b) in enumerate(exons[:-1]):
+            hl.append(gen_db.gff_line("chr1", "exon", a, b, strand, [("ID", ["%se%d" % (tid, i)]), ("Parent", [tid])]))
+        hl.append(gen_db.gff_line("chr1", "exon", exons[-1][0], exons[-1][1], strand, [("ID", [tid + "new"])]))
+        hp = dbside.write_lines(os.path.join(ctx.scratch, "c18h.gff3"), hl)
+        hdb, hrep = dbside.py_create(hp, dbside.Cfg())
+        if hdb is None:
+            res.oracle_failures.append(("create_db raised: " + hrep, {"lines": hl}))
+            continue
+        hcase = {"scenario": "bed12_history", "input": hl, "transcript": tid, "no_shrink": True}
+        steps = []
+        try:
+            if hi % 3 != 2:
+                hdb[tid]; steps.append("db[%r]" % tid)
+            if hi % 3 != 1:
+                got0 = hdb.bed12(tid if hi % 2 else hdb[tid], thick_featuretype="exon", name_field="Name"); steps.append("bed12")
+                why0 = bed_oracle(early, ["exon"], ["exon"], None, "Name", got0)
+                if why0:
+                    common.fail(res, hcase, "bed12_fields_wrong", "bed12 (before the history): " + why0, returned=got0)
+
+            def stretch(parent, child):
+                parent.end = max(parent.end, child.end)
+                return parent
+            hdb.add_relation(tid, tid + "new", 1, parent_func=stretch); steps.append("add_relation(parent_func=stretch)")
+            arg = tid if hi % 2 == 0 else hdb[tid]
+            try:
+                got1 = hdb.bed12(arg, thick_featuretype="exon", name_field="Name")
+            except Exception as ex:
+                got1 = ("raised", type(ex).__name__)
+            why1 = bed_oracle(late, ["exon"], ["exon"], None, "Name", got1)
+            res.evaluations += 1
+            res.count("bed12_after_add_relation_rewrote_the_transcript")
+            if why1:
+                common.fail(res, dict(hcase, steps=steps), "bed12_stale_after_rewrite",
+                            "bed12 after the transcript was rewritten in place by add_relation(parent_func=...): " + why1,
+                            returned=got1, error=(got1[1] if isinstance(got1, tuple) else None))
+        except Exception as ex:
+            common.fail(res, dict(hcase, steps=steps), "history_raised", "the history raised %r" % ex,
+                        error=dbside.err_name(ex))
     # sequence ----------------------------------------------------------------------------------------
     def seq_case(ref, a, b, strand, us, stream):
         case = {"scenario": "sequence", "stream": stream, "reference": ref, "seqid": "chrR", "start": a, "end": b,
